@@ -12,7 +12,7 @@ import (
 	"time"
 )
 
-var ordinalRe = regexp.MustCompile(`@\d+$`)
+var ordinalRe = regexp.MustCompile(`(@\d+)?(/\d+)?$`)
 
 func baseName(n string) string { return ordinalRe.ReplaceAllString(n, "") }
 
@@ -190,7 +190,7 @@ func cmdCheck(args []string) int {
 		os.WriteFile(path, []byte(sb.String()), 0o644)
 		wasDischarged := exp[baseName(name)]
 		autoKind := map[string]bool{"index": true, "slice": true, "makeslice": true, "panic": true, "exit": true,
-			"typeassert": true, "divzero": true, "nilmap": true, "effect": true, "frame": true}[f.res.Obl.Kind]
+			"typeassert": true, "divzero": true, "nilmap": true, "effect": true, "frame": true, "overflow": true}[f.res.Obl.Kind]
 		switch {
 		case f.res.Status == "failed" && replayOK:
 			fmt.Printf("VIOLATION property=%s replay=%s\n", id, path)
